@@ -161,6 +161,8 @@ class Ctx:
                     if k["id"] not in seen_known:
                         seen_known.add(k["id"])
                         lines.append("KNOWN-FINDING: property=%s %s [%s]" % (self.pid, k["what"], k["id"]))
+                    ob.status = "known-finding"      # reported separately; not part of the claimed obligations
+                    ob.detail = "[%s] %s" % (k["id"], ob.detail)
                     continue
             nviol += 1
             path = os.path.join(self.out, "replay_%s_%s.json" % (re.sub(r"[^A-Za-z0-9_.-]", "_", ob.name)[:110], sha256(ob.name)[:6]))
@@ -202,7 +204,8 @@ class Ctx:
         return rc
 
     def write_evidence(self, rc, seen_known):
-        obs = self.obligations
+        known_obs = [o for o in self.obligations if o.status == "known-finding"]
+        obs = [o for o in self.obligations if o.status != "known-finding"]
         unb = [o for o in obs if not o.bounded]
         bnd = [o for o in obs if o.bounded]
         by_backend = {}
@@ -229,6 +232,7 @@ class Ctx:
             solver_s=round(sum(o.solver_s for o in obs), 2),
             clauses_not_decided=self.not_decided,
             known_findings_reported=sorted(seen_known),
+            known_finding_obligations=[o.as_dict() for o in known_obs],
             samples=samples,
             explanation=self.explanation,
             exit_code=rc,
